@@ -418,6 +418,21 @@ pub fn run(run: &Run) {
             true
         });
     }
+    battery(run, "respelled_middle_dot", &respelled_middle_dot_strings(), &|s, l| {
+        for p in PROFS {
+            for partner in ["l\u{b7}l", s] {
+                if let Err(v) = check_pair(run, p, s, partner, l) {
+                    run.violate(v);
+                    return false;
+                }
+                if let Err(v) = check_pair(run, p, partner, s, l) {
+                    run.violate(v);
+                    return false;
+                }
+            }
+        }
+        true
+    });
     // distinct equal-length strings that collide under common 32-bit hashes must still compare as different
     run.par("fingerprint_collisions", true, |tid, _n, l| {
         if tid != 0 {
